@@ -293,6 +293,9 @@ func VerifSyncBlock() {
 			vrt.Cover("held-conversion-waits")
 			vrt.Assert("C12.block-without-rates-executes-no-pending-conversion", st == 0 && usd == 5000)
 			vrt.Assert("C07.held-conversion-waits-for-a-block-with-rates", st == 0 && usd == 5000)
+			// read as C06: held batches are swept once per window [last rated block, this rated block);
+			// a block that records no rates must not consider them (the next rated block will, again)
+			vrt.Assert("C06.held-batch-is-not-considered-by-a-block-without-rates", st == 0 && usd == 5000)
 		}
 	}
 	// ---- rewards and burns
